@@ -87,6 +87,8 @@ impl<'c, Param, Yield, Return> Coroutine<'c, Param, Yield, Return> {
                     }
                     if let Some(co) = Self::current() {
                         let stack_ptr_in_bounds = co.stack_ptr_in_bounds(sp);
+                        #[cfg(feature = "verif")]
+                        crate::verif::observe("trap", sp, u64::from(stack_ptr_in_bounds));
                         let regs = co.inner.trap_handler().setup_trap_handler(move || {
                             Err(if stack_ptr_in_bounds {
                                 "invalid memory reference"
